@@ -1,15 +1,29 @@
-"""C06 - bounded relational contracts (E3, see vf/e3/derive.py); E1 obligations are added by the heap engine."""
+"""C06 - E1 obligations on the derivation operations (vf/props/e1_derive.py: unbounded where the code is loop-free, bounded-mode
+VCs where it loops) + bounded relational contracts (E3, vf/e3/derive.py)."""
 import time
 
 from ..core import Report
 from ..e3 import derive
+from ..par import pmap
+from ..pyvc.world import World
+from . import e1_derive
 
 
 def run(tier, seed):
     t0 = time.time()
     rep = Report("C06", tier, seed)
-    rep.level = "exploration"
+    rep.level = "other"
+    for obs, _ in pmap("vf.props.e1_derive", e1_derive.tasks("C06", tier, 10000 if tier == "quick" else 40000)):
+        rep.obs.extend(obs)
     derive.run_c06(rep, tier, seed)
-    rep.rule = "E3 scope (DESIGN Appendix B): structured skeleton corpus x element/role/stereo decorations x the operation's argument space; distinct_nontrivial = distinct base graphs"
-    rep.assumptions = ["bounded: only the enumerated scope is covered"]
+    rep.functions = e1_derive.functions(World(), "C06")
+    proof = [o for o in rep.obs if o.kind == "proof"]
+    e1b = [o for o in rep.obs if o.kind == "bounded" and "/bounded/" not in o.name]
+    rep.rule = ("E1: one VC per (class, derivation, symbolic path, clause); E3 scope (DESIGN Appendix B): structured skeleton corpus x element/role/stereo decorations x "
+                "the operation's argument space; distinct_nontrivial = distinct base graphs of the E3 part")
+    rep.trusted_base = ["pyvc encoding of CPython semantics + symbolic heap (z3 arrays)", "assumed contract of copy.deepcopy (structural copy, every mutable object fresh, modelled as a copy of the heap into a fresh reference block)", "z3 5.1"]
+    rep.assumptions = ["bounded-mode VCs (kind=bounded without '/bounded/' in the name): loops over symbolic containers unrolled for at most K elements per container (K in vf/props/e1_derive.py:PLAN), everything else unbounded",
+                       "E3: only the enumerated scope is covered", "descriptor objects are immutable values (no public operation mutates one)"]
+    rep.explanation = (f"{len(proof)} unbounded proof obligations, {len(e1b)} bounded-mode VCs, plus the bounded relational contract groups listed in coverage.bounded_groups")
+    rep.samples = [o.name for o in (proof + e1b)[:: max(1, (len(proof) + len(e1b)) // 8)]][:8]
     return rep, t0
